@@ -1842,13 +1842,19 @@ class Pipeline:
             if output_names is None
             else {pipeline.node_mapping[n] for n in output_names}  # type: ignore[misc]
         )
+        if output_names is None:
+            # Only the leaf nodes that can be reached from the provided inputs
+            reachable: set[Any] = set()
+            for node in input_nodes:
+                reachable.update(nx.descendants(pipeline.graph, node))
+            output_nodes &= reachable
         between = _find_nodes_between(pipeline.graph, input_nodes, output_nodes)
         drop = [f for f in pipeline.functions if f not in between]
         for f in drop:
             pipeline.drop(f=f)
 
         if inputs is not None:
-            new_root_args = set(pipeline.topological_generations.root_args)
+            new_root_args = set(pipeline.topological_generations.root_args) - set(pipeline.defaults)
             if not new_root_args.issubset(inputs):
                 outputs = {f.output_name for f in pipeline.functions}
                 msg = (
@@ -2103,14 +2109,17 @@ def _find_nodes_between(
     input_nodes: set[Any],
     output_nodes: set[Any],
 ) -> set[Any]:
-    reachable_from_inputs = set()
-    for input_node in input_nodes:
-        reachable_from_inputs.update(nx.descendants(graph, input_node))
-    reachable_to_outputs = set()
-    for output_node in output_nodes:
-        reachable_to_outputs.update(nx.ancestors(graph, output_node))
-    reachable_to_outputs.update(output_nodes)
-    return reachable_from_inputs & reachable_to_outputs
+    # Walk back from the outputs and stop at the provided inputs. Everything visited is needed,
+    # also functions that do not descend from any input (nullary, or using only defaults/bound values).
+    between = set()
+    stack = [node for node in output_nodes if node not in input_nodes]
+    while stack:
+        node = stack.pop()
+        if node in between:
+            continue
+        between.add(node)
+        stack.extend(pred for pred in graph.predecessors(node) if pred not in input_nodes)
+    return between
 
 
 @dataclass(frozen=True, slots=True)
